@@ -355,7 +355,12 @@ def C13(tier, seed):
     # histories of the real program over pools that mix fixed and dynamic arrays: every array stays well formed after every instruction
     for tk in ("spl", "t22"):
         jobs += hist_jobs(f"hist_{tk}_", seed, 2 if tier == "quick" else 8, 4 if tier == "quick" else 40, 150 if tier == "quick" else 300, tk)
-    return {"active": ["C13"], "drivers": jobs, "models": [], "gen": gen, "exhaustive": ex,
+    apa = []
+    if tier == "thorough":
+        # wider specification W5 at design level: the rent escrow of dynamic tick arrays is an inductive invariant of the rules that move
+        # lamports between positions and arrays, for every tick rent / base rent (Apalache; depends on the module only, cached)
+        apa = [{"name": "EscrowInd", "file": "EscrowInd", "inv": "IndInv", "init": "Init", "indinit": "IndInit", "cinit": "ConstInit", "implied": ["RentExempt"], "timeout": 3600}]
+    return {"active": ["C13"], "drivers": jobs, "models": [], "gen": gen, "exhaustive": ex, "apalache": apa,
             "must_hit": {"liq.dynamic_tick_array": 5, "liq.mixed_array_encodings": 2},
             "explanation": "TLC explores the abstract tick array over the boundary slot set completely (3^8 contents) and prints one shortest update path per content; the harness "
                            "replays each path and every update/query out of the reached content into Anchor-fixed, Anchor-dynamic, Pinocchio-fixed and Pinocchio-dynamic arrays; "
